@@ -126,6 +126,66 @@ Pad ==
          [Ev("pad", x, [m |-> m, width |-> width, fill |-> <<fl>>, extend |-> ext, inplace |-> 0], <<r>>, 0)
             EXCEPT !.o = [pyout |-> "ok", py |-> [t |-> "s", v |-> g[1]]]], 0)
 
+\* clip(start, end, inplace=True): the receiver takes over text and table of its own slice
+ClipIn ==
+  \E x \in Live :
+    LET c == ctab[x] n == Len(c.t) IN
+    \E st \in OptBounds(n), en \in OptBounds(n) :
+      LET g == CPGetItem(c.t, c.f, SliceIdx(st, n, 0), SliceIdx(en, n, n)) IN
+      Do([ctab EXCEPT ![x] = [k |-> "S", t |-> g[1], f |-> g[2]]],
+         Ev("clip", x, [start |-> st, stop |-> en, inplace |-> 1], <<x>>, 1), 0)
+
+\* strip / lstrip / rstrip(chars) through the transcribed _strip, in place or not
+Strip ==
+  \E x \in Live, m \in {"strip", "lstrip", "rstrip"}, ch \in Alphabet, ip \in {0, 1} :
+    (ip = 0 => Free # {}) /\
+    LET c == ctab[x] r == IF ip = 1 THEN x ELSE NextFree
+        g == CPStrip(c.t, c.f, <<ch>>, m \in {"strip", "lstrip"}, m \in {"strip", "rstrip"})
+        \* (the library returns self when nothing is stripped in place: same table either way)
+    IN Do([ctab EXCEPT ![r] = [k |-> "S", t |-> g[1], f |-> g[2]]],
+          [Ev("strip", x, [m |-> m, chars |-> << <<ch>> >>, inplace |-> ip], <<r>>, ip)
+             EXCEPT !.o = [pyout |-> "ok", py |-> [t |-> "s", v |-> g[1]]]], 0)
+
+\* join(x, y) and join(x, y, x): copy of the first operand, += the others
+Join ==
+  \E x \in Live, y \in Live, third \in {0, 1} :
+    LET items == IF third = 1 THEN <<x, y, x>> ELSE <<x, y>>
+        r == NextFree
+        g == CPJoinT([k \in DOMAIN items |-> <<ctab[items[k]].t, ctab[items[k]].f>>])
+    IN Len(g[1]) <= MaxTotalLen /\
+       Do([ctab EXCEPT ![r] = [k |-> "S", t |-> g[1], f |-> g[2]]],
+          Ev("join", 0, [cls |-> "S", items |-> items, inplace |-> 0], <<r>>, 0), 6 * ninst + 6)
+
+\* iteration: one register per character (s[0], s[1], ...)
+FreeSeq == SortedSeq(Free)
+Iterate ==
+  \E x \in Live :
+    LET c == ctab[x] n == Len(c.t) IN
+    n >= 1 /\ n <= Cardinality(Free) /\
+    LET regs == SubSeq(FreeSeq, 1, n)
+        piece(k) == CPGetItem(c.t, c.f, k - 1, k)
+    IN Do([r \in Regs |-> IF \E k \in 1..n : regs[k] = r
+                          THEN LET k == CHOOSE q \in 1..n : regs[q] = r IN [k |-> "S", t |-> piece(k)[1], f |-> piece(k)[2]]
+                          ELSE ctab[r]],
+          Ev("iter", x, [inplace |-> 0], regs, 0), 0)
+
+\* split(sep) on a one-letter separator: the pieces located and cut the way _split does it
+Split ==
+  \E x \in Live, ch \in Alphabet, m \in {"split", "rsplit"} :
+    LET c == ctab[x]
+        offs == IF m = "split" THEN SplitSep(c.t, <<ch>>, -1) ELSE RSplitSep(c.t, <<ch>>, -1)
+        texts == OffsetsToTexts(c.t, offs)
+        n == Len(texts)
+    IN n <= Cardinality(Free) /\
+       LET regs == SubSeq(FreeSeq, 1, n)
+           rg == LocLoop(c.t, texts, 1, 0, 1)
+           piece(k) == CPCut(c.t, c.f, rg[k][1], rg[k][2])
+       IN Do([r \in Regs |-> IF \E k \in 1..n : regs[k] = r
+                             THEN LET k == CHOOSE q \in 1..n : regs[q] = r IN [k |-> "S", t |-> piece(k)[1], f |-> piece(k)[2]]
+                             ELSE ctab[r]],
+             [Ev("split", x, [m |-> m, sep |-> << <<ch>> >>, maxsplit |-> -1, inplace |-> 0], regs, 0)
+                EXCEPT !.o = [pyout |-> "ok", py |-> [t |-> "l", v |-> texts]]], 0)
+
 \* replace(old, new) with a register as replacement (its own settings, reused for every match)
 Replace ==
   \E x \in Live, y \in Live, c \in Alphabet, cnt \in {-1, 1} :
@@ -194,6 +254,7 @@ Next ==
   /\ depth < MaxDepth
   /\ IF Narrow /\ depth = 0 THEN Free # {} /\ (New \/ Slice \/ Copy)
      ELSE \/ (Free # {} /\ (New \/ Slice \/ Copy \/ Add \/ Pad \/ Replace))
+          \/ (Free # {} /\ Join) \/ Iterate \/ Split \/ Strip \/ ClipIn
           \/ Apply \/ Remove \/ IAdd \/ Render \/ FindSettings \/ AssignStr
           \/ (WithParse /\ ((Free # {} /\ (NewParsed \/ Reparse)) \/ Simplify))
 
